@@ -282,11 +282,20 @@ def edit_check(ctx, prop, which):
     nt = 8 if ctx.tier == "quick" else 40
     cfgs = [("Edit_quick.cfg", nt, 2)] if ctx.tier == "quick" else [("Edit_thorough.cfg", nt, 2), ("Edit_double.cfg", 6, 1)]
     witness = None
-    extra = [("soups", 0, 0)] + ([("family", 0, 0), ("sizes", 0, 0)] if prop == "C18" else [])
+    extra = [("soups", 0, 0), ("calls", 0, 0)] + ([("family", 0, 0), ("sizes", 0, 0)] if prop == "C18" else [])
     for cfg, ntrees, ms in cfgs + extra:
         if cfg == "soups":
             gp = os.path.join(ctx.work, "soups.ndjson")
             ctx.vh_json(["soups", ctx.seed, 6000 if ctx.tier == "quick" else 100000, gp])
+        elif cfg == "calls":
+            # argument lists of built-in calls with holes before, at and after the place where the surplus begins (CallFam.tla)
+            cs = gen_lines(ctx, "CallFam", "CallFam_%s.cfg" % ctx.tier, "built-in calls x argument lists of well-formed slots, keywords and empty slots", workers=1)
+            gp = os.path.join(ctx.work, "call_docs.ndjson")
+            with open(gp, "w") as f:
+                for i, c in enumerate(cs):
+                    t = json.loads(c)["text"]
+                    f.write(json.dumps(dict(id=i, text=t, lines=[len(x) for x in t.split("\n")], lexok=False, accepts=False, unspec=True, ntoks=0)) + "\n")
+            ctx.cov["call_argument_lists"] = len(cs)
         elif cfg == "sizes":
             # documents by number of diagnostics around powers of two and round numbers, with unused declarations (SizeFam.tla)
             ds = gen_lines(ctx, "SizeFam", "SizeFam_%s.cfg" % ctx.tier, "documents by size: thresholds x offsets x unused declarations x kinds", workers=1)
